@@ -5,6 +5,7 @@ import (
 	"fmt"
 	"sort"
 	"strings"
+	"sync"
 
 	"github.com/cbehopkins/gkvlite"
 )
@@ -18,8 +19,14 @@ type SchedWorld struct {
 	St    *gkvlite.Store
 	Colls map[string]*gkvlite.Collection
 
+	mu       sync.Mutex
 	Versions map[string][]*RColl // per collection: V0 (initial) .. Vn
-	Pubs     map[string][]int64  // Pubs[c][k] = instant at which Versions[c][k+1] was published
+	// Versions[c][k+1] became visible no earlier than PubsLo[c][k] and
+	// Versions[c][k] was visible no later than Pubs[c][k].  Under the scheduler
+	// both are the instant of the successful rootCAS; on the pristine build
+	// (free-running validation) they are the start and the end of the mutator's call.
+	Pubs   map[string][]int64
+	PubsLo map[string][]int64
 
 	Reads   []ReadRec
 	Flushes []FlushRec
@@ -45,10 +52,20 @@ type FlushRec struct {
 }
 
 func NewSchedWorld() *SchedWorld {
-	return &SchedWorld{Colls: map[string]*gkvlite.Collection{}, Versions: map[string][]*RColl{}, Pubs: map[string][]int64{}}
+	return &SchedWorld{Colls: map[string]*gkvlite.Collection{}, Versions: map[string][]*RColl{}, Pubs: map[string][]int64{}, PubsLo: map[string][]int64{}}
+}
+
+// MarkDone / DoneCount: thread completion (lock-protected for the free-running pass).
+func (s *SchedWorld) MarkDone() { s.mu.Lock(); s.Done++; s.mu.Unlock() }
+func (s *SchedWorld) DoneCount() int {
+	s.mu.Lock()
+	defer s.mu.Unlock()
+	return s.Done
 }
 
 func (s *SchedWorld) Fail(oracle, sig, format string, a ...interface{}) {
+	s.mu.Lock()
+	defer s.mu.Unlock()
 	if len(s.Viols) < 6 {
 		s.Viols = append(s.Viols, Viol{Oracle: oracle, Sig: oracle + ":" + sig, Msg: fmt.Sprintf(format, a...)})
 	}
@@ -111,6 +128,7 @@ func (s *SchedWorld) SeqReopen() {
 func (s *SchedWorld) StartConcurrent() {
 	for n := range s.Pubs {
 		s.Pubs[n] = nil
+		s.PubsLo[n] = nil
 	}
 	byColl := map[interface{}]string{}
 	for n, c := range s.Colls {
@@ -121,7 +139,9 @@ func (s *SchedWorld) StartConcurrent() {
 			return
 		}
 		if n, ok := byColl[obj]; ok {
-			s.Pubs[n] = append(s.Pubs[n], Tick())
+			t := Tick()
+			s.Pubs[n] = append(s.Pubs[n], t)
+			s.PubsLo[n] = append(s.PubsLo[n], t)
 		}
 	})
 }
@@ -130,6 +150,7 @@ func (s *SchedWorld) StartConcurrent() {
 func (s *SchedWorld) MutSet(name string, key []byte, prio int32, val []byte) {
 	BeginOp("Set(" + name + "," + string(key) + ")")
 	before := len(s.Pubs[name])
+	t0 := Tick()
 	err := s.Colls[name].SetItem(&gkvlite.Item{Key: append([]byte{}, key...), Val: append([]byte{}, val...), Priority: prio})
 	if err != nil {
 		s.Fail("concurrent", "mutator-error", "SetItem(%s,%s) returned %v", name, key, err)
@@ -138,18 +159,18 @@ func (s *SchedWorld) MutSet(name string, key []byte, prio int32, val []byte) {
 	nv := s.cur(name).Clone()
 	nv.Items[string(key)] = RItem{Val: append([]byte{}, val...), Prio: prio}
 	s.Versions[name] = append(s.Versions[name], nv)
-	if Instrumented && len(s.Pubs[name]) != before+1 {
-		// no hook (rootCAS not found by the generator): fall back to call end
+	if len(s.Pubs[name]) != before+1 {
+		// no publication hook (pristine build, or rootCAS not found by the
+		// generator): the version appeared somewhere inside the call
 		s.Pubs[name] = append(s.Pubs[name][:before], Tick())
-	}
-	if !Instrumented {
-		s.Pubs[name] = append(s.Pubs[name], Tick())
+		s.PubsLo[name] = append(s.PubsLo[name][:before], t0)
 	}
 }
 
 func (s *SchedWorld) MutDelete(name string, key []byte) {
 	BeginOp("Del(" + name + "," + string(key) + ")")
 	before := len(s.Pubs[name])
+	t0 := Tick()
 	_, present := s.cur(name).Items[string(key)]
 	was, err := s.Colls[name].Delete(key)
 	if err != nil {
@@ -167,6 +188,7 @@ func (s *SchedWorld) MutDelete(name string, key []byte) {
 	s.Versions[name] = append(s.Versions[name], nv)
 	if len(s.Pubs[name]) != before+1 {
 		s.Pubs[name] = append(s.Pubs[name][:before], Tick())
+		s.PubsLo[name] = append(s.PubsLo[name][:before], t0)
 	}
 }
 
@@ -235,7 +257,10 @@ func (s *SchedWorld) record(name, kind, arg string, start int64, res string, err
 		s.Fail("concurrent", "reader-error-"+kind, "%s(%s,%s) returned error %v", kind, name, arg, err)
 		return
 	}
-	s.Reads = append(s.Reads, ReadRec{Thread: ThreadID(), Coll: name, Kind: kind, Arg: arg, Start: start, End: Tick(), Result: res})
+	end := Tick()
+	s.mu.Lock()
+	s.Reads = append(s.Reads, ReadRec{Thread: ThreadID(), Coll: name, Kind: kind, Arg: arg, Start: start, End: end, Result: res})
+	s.mu.Unlock()
 }
 
 // Reader operations.
@@ -344,7 +369,9 @@ func (s *SchedWorld) RSnapshot(name string) {
 		s.Fail("concurrent", "reader-error-Snap", "visit of a snapshot returned %v", err)
 		return
 	}
+	s.mu.Lock()
 	s.Reads = append(s.Reads, ReadRec{Thread: ThreadID(), Coll: name, Kind: "Snap", Start: t0, End: t1, Result: sb.String()})
+	s.mu.Unlock()
 	sn.Close()
 }
 
@@ -353,7 +380,10 @@ func (s *SchedWorld) FFlush() {
 	BeginOp("Flush")
 	t0 := Tick()
 	err := s.St.Flush()
-	s.Flushes = append(s.Flushes, FlushRec{Start: t0, End: Tick(), Err: err})
+	end := Tick()
+	s.mu.Lock()
+	s.Flushes = append(s.Flushes, FlushRec{Start: t0, End: end, Err: err})
+	s.mu.Unlock()
 	if err != nil {
 		s.Fail("concurrent", "flush-error", "Flush returned %v", err)
 	}
@@ -363,7 +393,7 @@ func (s *SchedWorld) FFlush() {
 func (s *SchedWorld) lifetime(c string, j int) (int64, int64) {
 	from, to := int64(0), int64(1)<<62
 	if j > 0 {
-		from = s.Pubs[c][j-1]
+		from = s.PubsLo[c][j-1]
 	}
 	if j < len(s.Pubs[c]) {
 		to = s.Pubs[c][j]
